@@ -190,7 +190,7 @@ def save_replay(prop, name, src_dir=None, files=None, meta=None):
 def run_wild(args, cwd=None, env=None, timeout=30, wild=None):
     """Run the hook-enabled wild binary. Always under a hard timeout."""
     w = wild or build_wild()
-    e = {"WILD_VALIDATE_OUTPUT": "0"}
+    e = {"RUST_BACKTRACE": "0"}     # symbolising a backtrace of the debug binary is very slow under load
     e.update(env or {})
     return sh([w] + [str(a) for a in args], timeout=timeout, env=e, cwd=cwd)
 
